@@ -27,7 +27,8 @@ def cases(tier, seed):
         yield {"mesh": gen.random_mesh(rng, 120 if tier == "quick" else 800, families=["voronoi", "merged", "merged", "polyhedron", "delaunay", "cubed_sphere", "sample"]),
                "extra_width": int(rng.choice([0, 0, 2])), "dseed": int(rng.integers(0, 10**6)),
                "dtype": str(rng.choice(["float64", "float32", "int64", "bool"])), "lead": [int(x) for x in rng.integers(1, 4, size=int(rng.integers(0, 3)))],
-               "layout": str(rng.choice(["C", "C", "F", "T", "strided"])), "big_offset": bool(rng.random() < 0.25)}
+               "layout": str(rng.choice(["C", "C", "F", "T", "strided"])), "big_offset": bool(rng.random() < 0.25),
+               "backend": str(rng.choice(["numpy", "numpy", "numpy", "dask_data", "dask_grid", "dask_both"]))}
 
 
 def make_data(rng, dtype, shape):
@@ -73,6 +74,12 @@ def run_case(ctx, case):
         stored = data.copy()
     ctx.observe("layout_" + layout)
     uxda = U.UxDataArray(stored, dims=dims, uxgrid=g, name="v")
+    backend = case.get("backend", "numpy")
+    if backend in ("dask_grid", "dask_both"):
+        g.chunk()  # dask-backed grid variables
+    if backend in ("dask_data", "dask_both"):
+        uxda = uxda.chunk({dims[-1]: max(1, m.n_node // 3)})  # dask-backed data, chunked along the element dimension too
+    ctx.observe("backend_" + backend)
     mixed = len({len(f) for f in m.faces}) > 1
     en = None
     for dest in ("face", "edge"):
@@ -82,7 +89,7 @@ def run_case(ctx, case):
             en = np.asarray(g.edge_node_connectivity.values)
             elems = [list(map(int, r)) for r in en]
         for agg in AGGS:
-            sig = {"agg": agg, "dest": dest, "dtype": case["dtype"], "mixed": mixed, "layout": layout, "rank": len(lead) + 1}
+            sig = {"agg": agg, "dest": dest, "dtype": case["dtype"], "mixed": mixed, "layout": layout, "rank": len(lead) + 1, "backend": backend}
             try:
                 res = getattr(uxda, "topological_" + agg)(destination=dest)
             except Exception as e:
